@@ -6,6 +6,7 @@ import (
 	"net"
 	"reflect"
 	"regexp"
+	"sort"
 	"strings"
 	"sync"
 
@@ -45,6 +46,9 @@ func diffAt(a, b string) string {
 type recCase struct {
 	R    wm.Rec
 	Bare bool `json:",omitempty"` // hand the library a bare *RR_Header carrying R's header instead of the record
+	// the record is what UnpackRR makes of R's wire form rather than a value put together field by
+	// field: slices carved out of one private array, with spare capacity reaching into the next one
+	Decoded bool `json:",omitempty"`
 }
 
 // bareHeader is the header of rr as a value of its own. *RR_Header satisfies the RR interface (the
@@ -101,6 +105,21 @@ func checkCopyRR(c recCase) error {
 	} else {
 		pbt.Note([]byte(shape), mut, "type:"+typeName(c.R.Type))
 	}
+	if c.Decoded && !c.Bare {
+		if w, err := wm.EncodeRR(c.R); err == nil {
+			if dec, _, err := dns.UnpackRR(w, 0); err == nil && dec != nil {
+				rr = dec
+				pbt.Class("decoded")
+				if innerOverlap(rr) {
+					// e.g. the addresses of an SVCB ipv4hint: sub-slices of one cloned array, cap(Hint[0])
+					// reaches over Hint[1]. Sharing inside ONE value - neither copy / original nor
+					// message / input buffer, so not the statement's business; what is, is that a copy
+					// of such a value stands on its own (the spare capacity included)
+					pbt.Class("decoded:elements-share-an-array")
+				}
+			}
+		}
+	}
 	// an emptied or pre-allocated slice (length 0, capacity > 0) must not be shared either: a later
 	// append on one side would write into the other
 	roomy(rr)
@@ -123,7 +142,81 @@ func checkCopyRR(c recCase) error {
 	if after := snap(cp2); after != before {
 		return pbt.Errf("writing through the original %s changed its copy: %s", typeName(c.R.Type), diffAt(after, before))
 	}
+	// appends within capacity are writes too
+	cp3 := dns.Copy(rr)
+	before = snap(cp3)
+	n := growInto(rr)
+	if after := snap(cp3); after != before {
+		return pbt.Errf("writing into the spare capacity of the slices of a %s (an append) changed its copy: %s", typeName(c.R.Type), diffAt(after, before))
+	}
+	before = snap(rr)
+	n += growInto(cp3)
+	if after := snap(rr); after != before {
+		return pbt.Errf("writing into the spare capacity of the slices of the copy of a %s (an append) changed the original: %s", typeName(c.R.Type), diffAt(after, before))
+	}
+	if n > 0 {
+		pbt.Class("spare-capacity-written")
+	}
 	return nil
+}
+
+// innerOverlap: two mutable ranges reachable from one value overlap (counted, not judged).
+func innerOverlap(v any) bool {
+	r := aliascheck.Ranges(v)
+	sort.Slice(r, func(i, j int) bool { return r[i].Lo < r[j].Lo })
+	for i := 1; i < len(r); i++ {
+		if r[i].Lo < r[i-1].Hi {
+			return true
+		}
+	}
+	return false
+}
+
+// growInto flips every octet / element between the length and the capacity of every slice of
+// integers reachable from v through exported fields - what a later append on that slice overwrites.
+// It returns the number of elements written.
+func growInto(v any) int {
+	n := 0
+	seen := map[uintptr]bool{}
+	var walk func(x reflect.Value)
+	walk = func(x reflect.Value) {
+		switch x.Kind() {
+		case reflect.Interface:
+			if !x.IsNil() {
+				walk(x.Elem())
+			}
+		case reflect.Pointer:
+			if !x.IsNil() && !seen[x.Pointer()] {
+				seen[x.Pointer()] = true
+				walk(x.Elem())
+			}
+		case reflect.Struct:
+			for i := 0; i < x.NumField(); i++ {
+				if x.Type().Field(i).IsExported() {
+					walk(x.Field(i))
+				}
+			}
+		case reflect.Slice:
+			switch x.Type().Elem().Kind() {
+			case reflect.Uint8, reflect.Uint16, reflect.Uint32, reflect.Uint64:
+				if x.Cap() > x.Len() {
+					full := x.Slice(0, x.Cap())
+					for i := x.Len(); i < x.Cap(); i++ {
+						if e := full.Index(i); e.CanSet() {
+							e.SetUint(^e.Uint() & (1<<(8*e.Type().Size()) - 1))
+							n++
+						}
+					}
+				}
+			default:
+				for i := 0; i < x.Len(); i++ {
+					walk(x.Index(i))
+				}
+			}
+		}
+	}
+	walk(reflect.ValueOf(v))
+	return n
 }
 
 // roomy replaces every empty []byte / []uint16 / []string reachable from rr (options and SvcParams
@@ -159,14 +252,23 @@ func roomy(v any) {
 func genRec(t *rapid.T) recCase {
 	o := &gen.Opts{Unknown: true, NoRdata: true}
 	if rapid.IntRange(0, 3).Draw(t, "opt") == 0 {
-		return recCase{R: gen.OptRec(t, o)}
+		return recCase{R: gen.OptRec(t, o), Decoded: rapid.IntRange(0, 3).Draw(t, "decoded") == 0}
 	}
 	c := recCase{R: gen.Rec(t, o)}
 	c.Bare = rapid.IntRange(0, 19).Draw(t, "bare") == 0
+	c.Decoded = rapid.IntRange(0, 3).Draw(t, "decoded") == 0
 	return c
 }
 
-func eachOptionKind(emit func(recCase)) {
+func eachOptionKind(emit0 func(recCase)) {
+	// every kind as a value assembled field by field and as UnpackRR hands it out
+	emit := func(c recCase) {
+		emit0(c)
+		if !c.Bare {
+			c.Decoded = true
+			emit0(c)
+		}
+	}
 	opts := []wm.Option{
 		{Code: 1, Data: make([]byte, 18)}, {Code: 2, Data: []byte{0, 0, 0, 9}}, {Code: 3, Data: []byte{1, 2}}, {Code: 4, Data: []byte("u")},
 		{Code: 5, Data: []byte{8, 13}}, {Code: 6, Data: []byte{1, 2}}, {Code: 7, Data: []byte{1}},
@@ -181,6 +283,7 @@ func eachOptionKind(emit func(recCase)) {
 	params := []wm.Option{
 		{Code: 0, Data: []byte{0, 1, 0, 4}}, {Code: 1, Data: []byte{2, 'h', '2'}}, {Code: 2, Data: []byte{}}, {Code: 3, Data: []byte{1, 187}},
 		{Code: 4, Data: []byte{192, 0, 2, 1, 192, 0, 2, 2}}, {Code: 5, Data: []byte{1, 2, 3}}, {Code: 6, Data: append([]byte{0x20, 1}, make([]byte, 14)...)},
+		{Code: 6, Data: append(append([]byte{0x20, 1}, make([]byte, 14)...), append([]byte{0x20, 1, 0xd, 0xb8}, make([]byte, 12)...)...)},
 		{Code: 7, Data: []byte("/dns-query{?dns}")}, {Code: 8, Data: []byte{}}, {Code: 65280, Data: []byte{9, 9}},
 	}
 	// bare headers (class ANY / NONE with no RDATA: the RFC 2136 prerequisite and delete forms)
@@ -203,6 +306,10 @@ type msgCase struct {
 	// copy-message, read-only-operations: record (Bare-1) mod n of the message is replaced by a bare
 	// *RR_Header carrying its header (0: none) - the way old dynamic-update code spells "no RDATA"
 	Bare int `json:",omitempty"`
+	// read-only-operations: the library value is turned into what a program that fills in struct
+	// literals holds (0: no) - redundant length fields, option codes, header type / class left at
+	// zero or stale; see handBuilt for the meaning of the bits
+	Hand uint32 `json:",omitempty"`
 }
 
 // slot addresses one element of one record section.
@@ -273,6 +380,29 @@ func genMsg(t *rapid.T) msgCase {
 	}
 	if rapid.IntRange(0, 7).Draw(t, "bare") == 0 {
 		c.Bare = rapid.IntRange(1, 12).Draw(t, "barewhich")
+	}
+	if rapid.IntRange(0, 2).Draw(t, "hand") == 0 {
+		c.Hand = 1 << 15 // (marks the case; the other bits as handBuilt reads them)
+		for i := 0; i < 5; i++ {
+			c.Hand |= uint32(rapid.SampledFrom([]int{0, 0, 0, 4, 5, 6}).Draw(t, "lenmode")) << (3 * i)
+		}
+		for bit := 16; bit < 18; bit++ {
+			if rapid.Bool().Draw(t, "handflag") {
+				c.Hand |= 1 << bit
+			}
+		}
+		for bit := 18; bit < 20; bit++ {
+			if rapid.IntRange(0, 3).Draw(t, "handhdr") == 0 {
+				c.Hand |= 1 << bit
+			}
+		}
+		c.Hand |= uint32(rapid.IntRange(0, 11).Draw(t, "handwhich")) << 20
+		// make sure there is a record with a redundant length field to leave at zero
+		if ts := lenTypesGen(); len(ts) > 0 && rapid.IntRange(0, 3).Draw(t, "handrec") != 0 {
+			r := gen.RecOfType(t, rapid.SampledFrom(ts).Draw(t, "handtype"), &gen.Opts{})
+			sec := c.M.Sections()[rapid.IntRange(0, 2).Draw(t, "handsec")]
+			*sec = append(*sec, r)
+		}
 	}
 	return c
 }
@@ -513,6 +643,18 @@ func checkReadOnly(c msgCase) error {
 	if _, bare := makeBare(lib, c.Bare); bare {
 		pbt.Class("bare-header")
 	}
+	// values put together as struct literals: the redundant fields (length octets, option codes,
+	// header type and class) left at zero or stale - see handBuilt
+	for _, cl := range handBuilt(lib, c.Hand) {
+		pbt.Class(cl)
+	}
+	return readOnlyOps(lib)
+}
+
+// readOnlyOps runs every read-only operation over lib and its records; after each of them the
+// message must read back as it was (RDLENGTH apart), hold the same record values in the same places,
+// and nothing may have been written behind the end of a section.
+func readOnlyOps(lib *dns.Msg) error {
 	// the sections are windows into larger arrays (a reply assembled from slices of a cached RRset):
 	// what lies behind a section's length is not the library's to write
 	sentinel := dns.RR(&dns.NULL{Hdr: dns.RR_Header{Name: "behind.the.section.", Rrtype: dns.TypeNULL, Class: 1}})
@@ -557,6 +699,7 @@ func checkReadOnly(c msgCase) error {
 				dns.Len(rr)
 				_ = rr.String()
 				dns.PackRR(rr, make([]byte, 70000), 0, nil, false)
+				dns.PackRR(rr, make([]byte, 70000), 0, map[string]int{}, true)
 			}
 		}},
 	}
@@ -585,6 +728,7 @@ func checkReadOnly(c msgCase) error {
 
 type signCase struct {
 	Recs []wm.Rec // same owner, class, type
+	Hand uint32   `json:",omitempty"` // the records' redundant length fields are left at zero / stale (handLens)
 }
 
 var (
@@ -617,9 +761,15 @@ func checkSign(c signCase) error {
 	if len(rrset) == 0 {
 		return nil
 	}
+	var hand []string
+	if c.Hand != 0 {
+		for _, rr := range rrset {
+			hand = append(hand, handLens(rr, c.Hand)...)
+		}
+	}
 	key, priv := signKey()
 	_, mut := mutableShape(c.Recs[0])
-	pbt.Note([]byte(snap(rrset)), mut || len(rrset) > 1, "type:"+typeName(c.Recs[0].Type), fmt.Sprintf("rrset=%d", len(rrset)))
+	pbt.Note([]byte(snap(rrset)), mut || len(rrset) > 1, append(hand, "type:"+typeName(c.Recs[0].Type), fmt.Sprintf("rrset=%d", len(rrset)))...)
 	// the signer name is written the way a zone file might spell it (mixed case): Verify must not "tidy" it
 	signer := "eXamPle."
 	if len(c.Recs)%2 == 0 {
@@ -674,6 +824,25 @@ func genSign(t *rapid.T) signCase {
 		}
 	}
 	typ := rapid.SampledFrom(types).Draw(t, "type")
+	var hand uint32
+	if rapid.IntRange(0, 7).Draw(t, "hand") == 0 {
+		// an RRset of records with redundant length fields, filled in as struct literals
+		var lts []uint16
+		for _, x := range lenTypesGen() {
+			for _, y := range types {
+				if x == y {
+					lts = append(lts, x)
+				}
+			}
+		}
+		if len(lts) > 0 {
+			typ = rapid.SampledFrom(lts).Draw(t, "handtype")
+			hand = 1 << 15
+			for i := 0; i < 5; i++ {
+				hand |= uint32(rapid.SampledFrom([]int{0, 0, 0, 4, 5, 6}).Draw(t, "lenmode")) << (3 * i)
+			}
+		}
+	}
 	n := rapid.IntRange(1, 3).Draw(t, "n")
 	o := &gen.Opts{}
 	var recs []wm.Rec
@@ -682,7 +851,7 @@ func genSign(t *rapid.T) signCase {
 		r.Name, r.Class = owner, 1
 		recs = append(recs, r)
 	}
-	return signCase{Recs: recs}
+	return signCase{Recs: recs, Hand: hand}
 }
 
 func init() {
